@@ -96,8 +96,10 @@ func specEDW(a, b *Genome) (e, d, w float64) {
 	return
 }
 
-func vc07(maxN int) {
-	n1, n2 := vChoice("n1", maxN+1), vChoice("n2", maxN+1)
+func vc07(maxN int) { vc07Sizes(0, maxN, 0, maxN) }
+
+func vc07Sizes(min1, max1, min2, max2 int) {
+	n1, n2 := min1+vChoice("n1", max1-min1+1), min2+vChoice("n2", max2-min2+1)
 	a, b := c07Genome("a", n1), c07Genome("b", n2)
 	o := c07Opts()
 	lin, fast := a.compatLinear(b, o), a.compatFast(b, o)
@@ -117,7 +119,11 @@ func vc07(maxN int) {
 	vReach("end")
 }
 
-func VC07_Compat_Quick()    { vc07(3) }
+func VC07_Compat_Quick()    { vc07(4) }
+
+// a short genome against a long one: long excess / disjoint tails, one genome a prefix or a scattered subset of the other
+func VC07_LongTail_Quick()    { vc07Sizes(0, 2, 6, 7) }
+func VC07_LongTail_Thorough() { vc07Sizes(0, 3, 8, 10) }
 func VC07_Compat_Thorough() { vc07(5) }
 
 // self-distance, distance to a duplicate, and the dispatch between the two selectable methods
